@@ -16,6 +16,7 @@ import (
 	"encoding/asn1"
 	"encoding/json"
 	"fmt"
+	"math"
 	"github.com/cloudflare/circl/abe/cpabe/tkn20"
 	"github.com/cloudflare/circl/pki"
 	"os"
@@ -72,6 +73,8 @@ type famDef struct {
 	// object set equal to the shared one (same per-run labels), so that work the library does
 	// once per process and label is first done inside the scheduled tasks
 	late bool
+	// cold: no counting pass either (see coldFam); switch points are absolute
+	cold bool
 }
 
 func b2(ok bool) []byte {
@@ -527,6 +530,7 @@ func init() {
 	}
 	reg(registryFam(), 6)
 	reg(tknFam(), 2)
+	reg(coldFam(), 8)
 	reg(groupFam(group.P256, "P256"), 6)
 	reg(groupFam(group.Ristretto255, "ristretto255"), 4)
 	// a Prio3 instance keeps a mutable XOF state and is owned by one party: it is neither a
@@ -686,21 +690,45 @@ func exec(planJSON []byte, run *core.Run) {
 			}
 		}
 	}
-	count0 := verifsimrt.Run(bodies, nil, true)
-	if refPanic != "" {
-		panic("HARNESS: reference run panicked: " + refPanic)
-	}
-	var total uint64
-	for _, s := range count0.Steps {
-		total += s
-	}
-	if total == 0 {
-		panic("HARNESS: the library is not instrumented (0 statements counted)")
+	var count0 verifsimrt.Result
+	if !f.cold {
+		count0 = verifsimrt.Run(bodies, nil, true)
+		if refPanic != "" {
+			panic("HARNESS: reference run panicked: " + refPanic)
+		}
+		var total uint64
+		for _, s := range count0.Steps {
+			total += s
+		}
+		if total == 0 {
+			panic("HARNESS: the library is not instrumented (0 statements counted)")
+		}
 	}
 	// --- resolve the planned pre-emptions into absolute per-task step numbers ---
 	var sw []verifsimrt.Switch
 	for _, s := range p.Switches {
 		if s.Task < 0 || s.Task >= nt || s.To < 0 || s.To >= nt || s.To == s.Task {
+			continue
+		}
+		if f.cold {
+			// nothing was counted: absolute statement numbers (logarithmic scale for the modes
+			// that are relative to the length of the call) and sync-operation indices
+			c := verifsimrt.Switch{Task: s.Task, To: s.To}
+			switch s.Mode {
+			case "frac":
+				c.Step = 1 + uint64(math.Exp2(float64(s.Num%1000000)/1000000*23))
+			case "early":
+				c.Step = 1 + s.Num
+			case "pw":
+				c.Step = 2 + 5*(s.Num%64)
+			case "sync":
+				c.Sync = 1 + s.Num%24
+				run.Probe("preempt-right-after-sync-operation")
+			default:
+				run.Bad("switch mode")
+				return
+			}
+			sw = append(sw, c)
 			continue
 		}
 		steps := count0.Steps[s.Task]
@@ -753,7 +781,14 @@ func exec(planJSON []byte, run *core.Run) {
 		run.Fault("schedule:preemption")
 		run.Faults["schedule:preemption"] += int(res.Fired) - 1
 	}
-	run.Event("sched", "run", nt, res.Fired, res.Steps)
+	if f.cold {
+		// what a cold run executes depends, by design, on what the process did before it (the
+		// first use builds what later uses find): the statement counts are not part of the
+		// event, only what the tasks returned is compared
+		run.Event("sched", "run", nt)
+	} else {
+		run.Event("sched", "run", nt, res.Fired, res.Steps)
+	}
 	if f.late {
 		buildCounter = nt // the same per-run labels as the shared set
 		lateObj := f.build(p.Seed)
